@@ -82,9 +82,10 @@ pub fn run_c04(ctx: &Ctx) -> i32 {
         extra.insert(format!("{}_build", build), json!({"worker_deaths": r.deaths, "per_operator": per_operator_json(&r), "bases": cfg.plan.generated_bases}));
         total.merge(r.summary);
     }
+    fuzz_stage(ctx, Mode::Load, &mut total, &mut extra);
     total.samples.push(json!({"example_input": "generated base gen0, field f0.c3:cel.layer (index) 0 -> 65535", "isolation": "worker process, 2 MiB case thread, RLIMIT_AS 12 GiB, catch_unwind + panic hook, death attributed to last B line"}));
     finish(
-        ctx,
+        &Ctx { level: "fault_enumeration", ..ctx.clone() },
         total,
         Finish {
             rule: "hostile inputs derived from generated well-formed files and the corpus: every structural field (magic/len/count/index/offset/size/enum/flag) set to each boundary value of its width one at a time; random pairs/triples of fields; 46 model-level inconsistency operators (consistent framing); unstructured bit flips / inserts / deletes / truncations / splices; each input loaded on a 2 MiB thread in an isolated worker, in an optimised and an unoptimised build with overflow checks and debug assertions; acceptable outcomes: Ok or Err; distinct = distinct (build, base, sub-input)".into(),
@@ -116,6 +117,7 @@ pub fn run_c05(ctx: &Ctx) -> i32 {
         extra.insert(format!("{}_build", build), json!({"worker_deaths": r.deaths, "per_operator": per_operator_json(&r), "bases": cfg.plan.generated_bases}));
         total.merge(r.summary);
     }
+    fuzz_stage(ctx, Mode::Walk, &mut total, &mut extra);
     let wf: u64 = total.outcomes.iter().filter(|(k, _)| k.ends_with("walk-ok-wellformed")).map(|(_, v)| *v).sum();
     let hostile_ok: u64 = total.outcomes.iter().filter(|(k, _)| k.ends_with("walk-ok-hostile-but-accepted")).map(|(_, v)| *v).sum();
     total.samples.push(json!({"walk": "every pub fn of AsepriteFile/Frame/Layer/Cel/Tilemap/Tileset/TilesetsById/ColorPalette/Tag/Slice/ExternalFilesById + Debug, in-range arguments only, PRNG-shuffled order, documented image dimensions checked; the three cel routes compared on small sprites", "wellformed_loaded": wf, "hostile_but_accepted": hostile_ok}));
@@ -123,7 +125,7 @@ pub fn run_c05(ctx: &Ctx) -> i32 {
     extra.insert("hostile_but_accepted_inputs_walked".into(), json!(hostile_ok));
     extra.insert("size_cap".into(), json!(cap));
     finish(
-        ctx,
+        &Ctx { level: "fault_enumeration", ..ctx.clone() },
         total,
         Finish {
             rule: "the C04 hostile corpus (field-directed, model-level inconsistencies aimed at every 'should have been caught by validate' site, nests of 3k-65k groups, unstructured); every input that loads Ok is walked: all documented accessors with in-range arguments in shuffled order on a 2 MiB thread in an isolated worker (optimised build: all bases; unoptimised build: a quarter); acceptable: normal return with documented dimensions; distinct = distinct (build, base, sub-input)".into(),
@@ -156,7 +158,7 @@ pub fn run_c12(ctx: &Ctx) -> i32 {
     }
     total.samples.push(json!({"monitor": "counting #[global_allocator]: live bytes / peak since arming / largest single request, armed around AsepriteFile::read on the 2 MiB case thread of an isolated worker; oversized requests announced by raw write(2) before being passed on", "bound": "64 MiB + 8192 bytes per input byte"}));
     finish(
-        ctx,
+        &Ctx { level: "fault_enumeration", ..ctx.clone() },
         total,
         Finish {
             rule: "for every generated base and corpus file: every len/count/size/index field inflated one at a time to each larger boundary value up to its type maximum; model-level inflations (declared w x h vs tiny payload for raw/zlib/tilemap/tileset, entry counts, 4 GiB chunk in 4 GiB frame, layer index 65535 across 200 frames, deflate bombs at ~1000:1 which must pass); release and checked builds; oracle: peak live heap and largest single request while loading <= 64 MiB + 8192*len; distinct = distinct (build, base, sub-input)".into(),
@@ -185,6 +187,7 @@ pub fn worker(ctx: &Ctx, args: &[String]) -> i32 {
         stride: get("--stride").and_then(|x| x.parse().ok()).unwrap_or(1),
         resume_sub: get("--resume-sub").and_then(|x| x.parse().ok()).unwrap_or(0),
         single,
+        file: get("--file").map(std::path::PathBuf::from),
         as_limit_gib: get("--as-limit-gib").and_then(|x| x.parse().ok()).unwrap_or(0),
         cpu_limit: get("--cpu-limit").and_then(|x| x.parse().ok()).unwrap_or(0),
     };
@@ -255,5 +258,51 @@ pub fn c16_cross(ctx: &Ctx, args: &[String]) -> i32 {
         "coverage": {"cross_profile": {"inputs_compared": compared, "outcome_kinds": by_kind, "builds": ["checked (opt-level 3 + overflow checks + debug assertions)", "dev (opt-level 0 + checks)", "release (stock)"]}},
     });
     let _ = std::fs::write(&out, serde_json::to_string_pretty(&doc).unwrap());
+    0
+}
+
+/// Thorough tier: the driver runs cargo-fuzz (libFuzzer + ASan, -fork=16) and points us at the artifacts.
+fn fuzz_stage(ctx: &Ctx, mode: Mode, total: &mut Summary, extra: &mut serde_json::Map<String, serde_json::Value>) {
+    let dir = match std::env::var("ASEMON_FUZZ_DIR") {
+        Ok(d) => std::path::PathBuf::from(d),
+        Err(_) => return,
+    };
+    let log = std::env::var("ASEMON_FUZZ_LOG").ok().and_then(|p| std::fs::read_to_string(p).ok()).unwrap_or_default();
+    // libFuzzer prints "#<n> ..." progress lines and "Done N runs" / "stat::number_of_executed_units: N"
+    let mut execs: u64 = 0;
+    for l in log.lines() {
+        if let Some(rest) = l.split("stat::number_of_executed_units:").nth(1) {
+            execs += rest.trim().parse::<u64>().unwrap_or(0);
+        }
+    }
+    if execs == 0 {
+        execs = log.lines().filter_map(|l| l.trim().strip_prefix('#')).filter_map(|r| r.split_whitespace().next()).filter_map(|n| n.parse::<u64>().ok()).max().unwrap_or(0);
+    }
+    let cov = log.lines().filter_map(|l| l.split("cov: ").nth(1)).filter_map(|r| r.split_whitespace().next()).filter_map(|n| n.parse::<u64>().ok()).max().unwrap_or(0);
+    let t = triage_files(ctx, &bin("ASEMON_BIN_CHECKED", "target/checked/asemon"), mode, &dir);
+    let artifacts = t.evaluations;
+    extra.insert("libfuzzer_asan".into(), json!({"executions": execs, "max_edge_coverage": cov, "artifacts_triaged": artifacts, "target": if mode == Mode::Load { "load" } else { "load_walk" }}));
+    total.counters.insert("libfuzzer_executions".into(), execs);
+    if execs == 0 {
+        total.inconclusive.push("libFuzzer stage produced no executions (see fuzz log)".into());
+    }
+    total.merge(t);
+}
+
+/// Writes `n` generated well-formed files (+ the small corpus files) as a libFuzzer seed corpus.
+pub fn gen_corpus(ctx: &Ctx, args: &[String]) -> i32 {
+    let dir = std::path::PathBuf::from(args.first().cloned().unwrap_or_else(|| "fuzz-corpus".into()));
+    let n: u64 = args.get(1).and_then(|x| x.parse().ok()).unwrap_or(200);
+    let _ = std::fs::create_dir_all(&dir);
+    for b in 0..n {
+        let base = crate::hostile::generated_base(ctx.seed, b);
+        let _ = std::fs::write(dir.join(format!("gen{}.ase", b)), &base.bytes);
+    }
+    for (name, bytes) in crate::corpus::list(ctx) {
+        if bytes.len() <= 16 * 1024 {
+            let _ = std::fs::write(dir.join(format!("corpus-{}.ase", name)), &bytes);
+        }
+    }
+    println!("wrote seed corpus to {}", dir.display());
     0
 }
